@@ -364,6 +364,17 @@ def machine_text(entries, cross_header=False):
     return out
 
 
+def layer_texts(scn, which, cross_header=False):
+    """The texts of the machine files of one kind (which: 'M' the files that describe the host machine, 'N' the native files of a
+    cross build) in the order of the command line.  Ordinarily one file; scn['Mfiles'] / scn['Nfiles'] (fam_layers) give the source
+    as several layers ("Loading multiple machine files"): every layer also carries a [properties] entry of its own, so that no
+    layer is an empty file and every two layers share a section."""
+    files = scn.get(which + 'files')
+    if files is None:
+        return [machine_text(scn[which], cross_header)] if (scn[which] or cross_header) else []
+    return [machine_text(es, cross_header and i == 0) + '[properties]\nverif_layer%d = %d\n' % (i + 1, i + 1) for i, es in enumerate(files)]
+
+
 # ------------------------------------------------------------------------------------------------------------
 # Tier A: drive the real OptionStore the way Interpreter.func_project / CoreData do
 _A_SEQ = [0]
@@ -408,13 +419,13 @@ def a_machine_options(store, scn):
     fe = types.SimpleNamespace(options={}, coredata=types.SimpleNamespace(optstore=store))
     fe.mfilestr2key = types.MethodType(Environment.mfilestr2key, fe)
     cross = scn['cross']
-    native_entries = scn['N'] if cross else scn['M']
-    if native_entries:
-        cfg = machinefile.parse_machine_files([_tmpfile(machine_text(native_entries), '.ini')], '/nonexistent')
+    native_texts = layer_texts(scn, 'N' if cross else 'M')
+    if native_texts:
+        cfg = machinefile.parse_machine_files([_tmpfile(t, '.ini') for t in native_texts], '/nonexistent')
         Environment._load_machine_file_options(fe, cfg, Properties(cfg.get('properties', {})),
                                                MachineChoice.BUILD if cross else MachineChoice.HOST)
     if cross:
-        cfg = machinefile.parse_machine_files([_tmpfile(machine_text(scn['M'], True), '.ini')], '/nonexistent')
+        cfg = machinefile.parse_machine_files([_tmpfile(t, '.ini') for t in layer_texts(scn, 'M', True)], '/nonexistent')
         for key, value in list(fe.options.items()):
             if store.is_per_machine_option(key):
                 fe.options[key.as_build()] = value
@@ -987,6 +998,158 @@ def default_part(dd):
                     else:
                         bp['overridden_by'][src] += n
     return by_place, shapes, missing
+
+
+# ------------------------------------------------------------------------------------------------------------
+# the machine-file source given as several files.  Machine-files.md, "Loading multiple machine files": "More than one file can be
+# loaded, with values from a previous file being overridden by the next.  The intention of this is not overriding, but to allow
+# composing files ... first.ini will be loaded, then second.ini, with values from second.ini replacing first.ini, and so on."
+# So "the machine file" of the precedence order is the composition of the files given: for every option the value of the last
+# file that sets it -- whatever else that file or the other files say, in the same section or in another one.
+LAYER_OPTS = [      # (option, place): which section of the machine file addresses it and where it is observed
+    ('warning_level', 'top-builtin'), ('default_library', 'top-builtin'),       # [built-in options]
+    ('vcombo', 'top-project'), ('varr', 'top-project'),                         # [project options]
+    ('zstr', 'sub-project'), ('zfeat', 'sub-project'),                          # [sub:project options]
+    ('unity', 'sub-builtin'), ('werror', 'sub-builtin'),                        # [sub:built-in options]
+]
+LAYER_IDX = {'D': 0, 'L': 1, 'F1': 2, 'F2': 3, 'F3': 4, 'H': 5}
+# tier B: two partitions of the options into disjoint pairs (one project carries the four pairs of a partition): the two options
+# of each section / two options of different sections
+LAYER_MATCHINGS = [[(0, 1), (2, 3), (4, 5), (6, 7)], [(0, 2), (1, 4), (3, 6), (5, 7)]]
+
+
+def layer_option(scn, exp, lay, name, place, pl, comp, a, mstr):
+    """Option `name` is set by the layers pl (indices into scn['Mfiles']) of the machine-file source, by the next lower source of
+    its place if comp & 1 and by the next higher one if comp & 2."""
+    kind = kind_of(name)
+    vals = distinct_vals(kind)
+    n = len(vals)
+    nd = ndigits(len(LAYER_IDX), n)
+    val = {s: vals[digit(i, a, n, nd)] for s, i in LAYER_IDX.items()}
+    lo, ms, hi = ('P', 'M', 'C') if place.startswith('top') else ('SC', 'MS', 'CS')
+    if place == 'top-project':
+        scn['top_decl'].append([name, 'v' + name[1:], val['D'], False])
+        default = val['D']
+    elif place == 'sub-project':
+        scn['sub_decl'].append([name, 'v' + name[1:], val['D'], False])
+        default = val['D']
+    else:
+        default = vals[0]
+    present = {}
+    if comp & 1:
+        put(scn, lo, name, val['L'], mstr)
+        present[lo] = val['L']
+    if pl:
+        composed = val['F%d' % (pl[-1] + 1)]        # "values from a previous file being overridden by the next"
+        put(scn, ms, name, composed, mstr)          # (scn['M']: the composition, what a single file would say)
+        present[ms] = composed
+        for f in pl:
+            t = new_scn()
+            put(t, ms, name, val['F%d' % (f + 1)], mstr)
+            scn['Mfiles'][f].append(t['M'][0])
+    if comp & 2:
+        put(scn, hi, name, val['H'], mstr)
+        present[hi] = val['H']
+    if place.startswith('top'):
+        scn['obs'].append(['top', name])
+        exp['top:' + name] = exp['top2:' + name] = ['eq', ref_top(present, default)]
+    elif place == 'sub-project':
+        scn['obs'].append(['sub', name])
+        exp['sub:' + name] = ['eq', ref_sub_project_option(present, default)]
+    else:
+        scn['obs'] += [['top', name], ['sub', name]]
+        exp['sub:' + name] = ['eq', ref_sub_builtin(present, default)]
+        exp['top:' + name] = exp['top2:' + name] = ['eq', default]      # nothing addresses the parent's value
+    sec = (SUB + ':' if ms == 'MS' else '') + section_of(name)
+    lay[name] = {'place': place, 'section': sec, 'in_layers': list(pl), 'machine_source': ms,
+                 'layer_values': [val['F%d' % (f + 1)] if f in pl else None for f in range(len(scn['Mfiles']))]}
+    return highest([lo, ms, hi], present) or 'D'
+
+
+def fam_layers(cross=False, nfiles=2, dict_form=False, mstr=False, pairs=None, only_a=None, comps=(0, 1, 2, 3)):
+    """The machine-file source written as nfiles layers (--native-file a --native-file b; --cross-file a --cross-file b for a cross
+    build).  Every pair of options of LAYER_OPTS (same section, different sections) x for each of the two the set of layers that
+    set it (every subset; values differ from layer to layer) x {nothing else, the next lower source, the next higher source, both}
+    x 3 digit-scheme value assignments.  Expected: the composition of the layers takes the place of "the machine file" in the
+    documented order; a single layer that sets everything is the control."""
+    plc = list(subsets(list(range(nfiles))))
+    for i, j in (pairs if pairs is not None else itertools.combinations(range(len(LAYER_OPTS)), 2)):
+        for pi in plc:
+            for pj in plc:
+                if not pi and not pj:
+                    continue
+                for comp in comps:
+                    for a in range(3):
+                        if only_a is not None and a != only_a:
+                            continue
+                        scn = new_scn(cross, True)
+                        scn['dict_form'] = dict_form
+                        scn['Mfiles'] = [[] for _ in range(nfiles)]
+                        exp, lay = {}, {}
+                        w = [layer_option(scn, exp, lay, LAYER_OPTS[x][0], LAYER_OPTS[x][1], pl, comp, a, mstr) for x, pl in ((i, pi), (j, pj))]
+                        yield {'fam': 'machine-layers', 'scn': scn, 'exp': exp, 'reject': 'mustnot',
+                               'meta': {'pair': [LAYER_OPTS[i][0], LAYER_OPTS[j][0]], 'placement': [pi, pj], 'comp': comp, 'a': a,
+                                        'nfiles': nfiles, 'layers': lay, 'nsrc': len(pi) + len(pj) + 2 * bin(comp).count('1'),
+                                        'winner': '%s-layers%s-of-%d' % (w[0], ''.join(str(f + 1) for f in pi) or '0', nfiles)}}
+
+
+def fam_layers_merged(matching, **kwargs):
+    """Tier B: one project for the four disjoint pairs of a matching (same placement, competitors and assignment)."""
+    groups = {}
+    for c in fam_layers(pairs=LAYER_MATCHINGS[matching], **kwargs):
+        groups.setdefault((repr(c['meta']['placement']), c['meta']['comp'], c['meta']['a']), []).append(c)
+    for _, g in sorted(groups.items()):
+        m = merge_cases(g, 'machine-layers')
+        m['scn']['Mfiles'] = [sum((c['scn']['Mfiles'][f] for c in g), []) for f in range(g[0]['meta']['nfiles'])]
+        m['meta'].update(matching=matching, placement=g[0]['meta']['placement'], comp=g[0]['meta']['comp'], nfiles=g[0]['meta']['nfiles'],
+                         layers={k: v for c in g for k, v in c['meta']['layers'].items()})
+        yield m
+
+
+def layer_counters(case):
+    """Coverage counters of the layering dimension, per observed option of a case."""
+    if not case['fam'].startswith('machine-layers'):
+        return []
+    out = []
+    lay = case['meta']['layers']
+    nf = case['meta']['nfiles']
+    for name, L in lay.items():
+        pl = L['in_layers']
+        if not pl:
+            out.append('option-in-no-layer')
+            continue
+        out.append('option-in-%d-of-%d-layers' % (len(pl), nf))
+        if len(pl) > 1:
+            out.append('later-layer-replaces-value-of-earlier-layer')
+        later_same = [o for o, M in lay.items() if o != name and M['section'] == L['section'] and any(f > pl[-1] for f in M['in_layers'])]
+        later_other = [o for o, M in lay.items() if o != name and M['section'] != L['section'] and any(f > pl[-1] for f in M['in_layers'])]
+        if later_same:
+            out.append('value-of-earlier-layer-stands-while-a-later-layer-has-the-same-section:' + L['section'])
+        if later_other:
+            out.append('value-of-earlier-layer-stands-while-a-later-layer-has-another-section')
+    return out
+
+
+def layer_key(case, where, name, e, got):
+    """Which statement about layers the observed value contradicts (computed from the layer values of the case)."""
+    L = case['meta']['layers'].get(name)
+    if L is None:
+        return None
+    lv = [cstr(v) if v is not None else None for v in L['layer_values']]
+    pl = L['in_layers']
+    g = cstr(got) if isinstance(got, (bool, int, str, list)) else got
+    if e[0] == 'eq' and pl and cstr(e[1]) == lv[pl[-1]] and (where != 'top' and where != 'top2' or L['machine_source'] == 'M'):
+        if any(g == lv[f] and lv[f] != lv[pl[-1]] for f in pl[:-1]):
+            what = 'later-layer-does-not-replace-the-value-of-an-earlier-layer'
+        elif pl[-1] < len(lv) - 1:
+            what = 'value-set-only-in-an-earlier-layer-not-in-effect'
+        else:
+            what = 'value-set-in-the-last-layer-not-in-effect'
+    elif any(g == lv[f] for f in pl):
+        what = 'machine-file-value-in-effect-against-a-higher-source-or-in-the-wrong-place'
+    else:
+        what = 'other-value'
+    return 'C07:machine-layers:%s:%s' % (L['place'], what)
 
 
 # ------------------------------------------------------------------------------------------------------------
@@ -1617,6 +1780,10 @@ def classify(case, okey, e, got, obs=None):
             return 'C07:prefix:spelled-%s:directory-default-does-not-follow-the-prefix' % how
         return 'C07:prefix:spelled-%s:effective-prefix-is-another-path' % how
     acceptable = [e[1]] if e[0] == 'eq' else e[1]
+    if fam.startswith('machine-layers'):
+        lk = layer_key(case, where, name, e, got)
+        if lk:
+            return lk
     if got in ('.', ['.']) and any(x in ('', []) for x in acceptable):
         return 'C07:value:empty-value-of-builtin-option-becomes-dot'
     if fam.startswith('buildtype') and name in ('debug', 'optimization'):
@@ -1870,15 +2037,17 @@ def b_tree(scn):
     argv = ['setup', 'bld']
     if not any(LK[n]['late'] == 'backend' for n in scn['late']):
         argv.append('--backend=none')       # (a backend option only exists with its backend: ninja, stood in for by $NINJA)
+    def add_files(flag, stem, texts):
+        nonlocal argv
+        for i, t in enumerate(texts):
+            fn = '%s%s.ini' % (stem, '' if i == 0 else str(i + 1))
+            files[fn] = t
+            argv += [flag, fn]
     if scn['cross']:
-        files['cross.ini'] = machine_text(scn['M'], True)
-        argv += ['--cross-file', 'cross.ini']
-        if scn['N']:
-            files['native.ini'] = machine_text(scn['N'])
-            argv += ['--native-file', 'native.ini']
-    elif scn['M']:
-        files['native.ini'] = machine_text(scn['M'])
-        argv += ['--native-file', 'native.ini']
+        add_files('--cross-file', 'cross', layer_texts(scn, 'M', True))
+        add_files('--native-file', 'native', layer_texts(scn, 'N'))
+    else:
+        add_files('--native-file', 'native', layer_texts(scn, 'M'))
     argv += c_argv(c_entries(scn))
     return files, argv
 
